@@ -2494,3 +2494,18 @@ Proof.
   intros H q b L Hz i Hi. apply lookup_In in L. unfold zinv_b in H. rewrite forallb_forall in H.
   specialize (H _ L). cbn [snd] in H. rewrite Hz in H. eapply all_zero_from_sound; eassumption.
 Qed.
+
+(* a concrete chain start (non-vacuity of zchain): calloc(3,4) on dirty memory *)
+Lemma zchain_example :
+  zchain (fst (exec [] (CCalloc 0 3 4) (mkOracles None (Some (4096, 16, dirty 16)) None))) 4096 12.
+Proof.
+  eapply (zc_start [] (CCalloc 0 3 4) (mkOracles None (Some (4096, 16, dirty 16)) None)).
+  - exact wf_nil.
+  - exact zinv_nil.
+  - vm_compute. split; reflexivity.
+  - change (answer_ok [] 12 (Some (4096, 16, dirty 16))). apply answer_ok_b_sound. vm_compute. reflexivity.
+  - reflexivity.
+  - reflexivity.
+  - apply surjective_pairing.
+  - vm_compute. reflexivity.
+Qed.
